@@ -34,6 +34,13 @@ type state struct {
 	ReturnDirectlyToolCallPos int
 }
 
+func init() {
+	// the agent's graph state is part of every checkpoint of a graph the agent runs in: without the registration an
+	// interrupt inside the agent failed with "unknown type: react.state", and the type cannot be registered from
+	// outside the package
+	_ = compose.RegisterSerializableType[state]("_eino_react_state")
+}
+
 const (
 	nodeKeyTools = "tools"
 	nodeKeyModel = "chat"
